@@ -191,7 +191,8 @@ def check_program(prog, cap):
                     problems.append(('annotation-evaluated-after-binding', 'annotation read %s at %s: undefined flag supp=%s run time=%s' % (name, pos, supp_und, dyn_unbound)))
                 elif pos in split_reads and name in split_reads[pos]:
                     problems.append(('statement-split-by-comprehension', 'read %s at %s: undefined flag supp=%s run time=%s' % (name, pos, supp_und, dyn_unbound)))
-                elif name in cond_walrus:
+                elif name in cond_walrus and dyn_unbound and not supp_und:
+                    # the listed behaviour is one-directional: a conditionally evaluated walrus counts as a certain rebinding
                     problems.append(('conditional-walrus-shadows-definition', 'read %s at %s: undefined flag supp=%s run time=%s' % (name, pos, supp_und, dyn_unbound)))
                 else:
                     problems.append(('undefined-flag:supp=%s:dyn=%s:%s%s' % (supp_und, dyn_unbound, ctx, vtag),
@@ -234,7 +235,7 @@ def check_program(prog, cap):
                     problems.append(('annotation-evaluated-after-binding', 'annotation read %s at %s: lint says undefined, bound at run time' % (name, pos)))
                 elif pos in split_reads and name in split_reads[pos]:
                     problems.append(('statement-split-by-comprehension', 'read %s at %s: lint says undefined, bound at run time' % (name, pos)))
-                elif rid in ins.class_comp_reads or name in cond_walrus or pos in star_kw:
+                elif rid in ins.class_comp_reads or pos in star_kw:
                     pass        # judged above on the names_at view
                 else:
                     problems.append(('lint-undefined-name-but-bound-on-every-path:%s' % ctx,
